@@ -5,8 +5,6 @@ from __future__ import annotations
 from typing import TYPE_CHECKING, Any, ClassVar, Generic, TypeVar, cast
 from warnings import warn
 
-import numpy as np
-
 from quansino.mc.contexts import DisplacementContext, HamiltonianDisplacementContext
 from quansino.mc.core import MonteCarlo
 from quansino.mc.criteria import CanonicalCriteria, HamiltonianCanonicalCriteria
@@ -119,10 +117,9 @@ class Canonical(MonteCarlo[MoveType, CriteriaType], Generic[MoveType, CriteriaTy
         # always ask the calculator: a freshly attached one (e.g. after a restart) then
         # holds results for the current configuration, so that a first rejected move can
         # hand them back instead of leaving the calculator without results
-        potential_energy = self.atoms.get_potential_energy()
-
-        if np.isnan(self.context.last_potential_energy):
-            self.context.last_potential_energy = potential_energy
+        # and always take it as the reference: the atoms may have been edited since the
+        # last run (or the last accepted trial), like the remembered positions above
+        self.context.last_potential_energy = self.atoms.get_potential_energy()
 
         super().validate_simulation()
 
